@@ -33,6 +33,7 @@ def goenv():
 def main():
     src, sid = sys.argv[1], sys.argv[2]
     meta = json.load(open(os.path.join(src, "meta.json")))
+    meta.pop("confirmed_by_main_agent", None)
     pid = meta["property"]
     if "--check" in sys.argv:
         pid = sys.argv[sys.argv.index("--check") + 1]
@@ -97,8 +98,9 @@ def main():
         sh(["git", "-C", "/repo", "worktree", "remove", "--force", wt])
     dst = os.path.join(VERIF, "seeded", sid)
     os.makedirs(dst, exist_ok=True)
-    shutil.copy(os.path.join(src, "patch.diff"), dst)
-    shutil.copy(os.path.join(src, "demo_test.go"), dst)
+    if os.path.abspath(src) != os.path.abspath(dst):
+        shutil.copy(os.path.join(src, "patch.diff"), dst)
+        shutil.copy(os.path.join(src, "demo_test.go"), dst)
     meta["confirmed_by_main_agent"] = res
     json.dump(meta, open(os.path.join(dst, "meta.json"), "w"), indent=1)
     return res
